@@ -167,3 +167,344 @@ def regen(ctx):
     changed = ctx.write_gen('Tab_elf', text)
     ctx.cov['stages']['gen_Tab_elf'] = {'changed_on_disk': bool(changed), 'bytes': len(text)}
     return text
+
+
+# ------------------------------------------------------------------ ObjectFile -> Coq term
+def _s(x):
+    return coq_str(x)
+
+
+def sec_term(s):
+    return ('{| ms_name := %s; ms_addr := %s; ms_align := %s; ms_data := [%s] |}'
+            % (_s(s.name), coq_z(s.address), coq_z(s.alignment), '; '.join(str(b) for b in s.data)))
+
+
+def obj_term(obj):
+    syms = []
+    for y in obj.symbols:
+        syms.append('{| my_id := %s; my_name := %s; my_global := %s; my_value := %s; my_section := %s; '
+                    'my_typ := %s; my_size := %s |}'
+                    % (coq_z(y.id), _s(y.name), 'true' if y.binding == 'global' else 'false',
+                       'None' if y.value is None else 'Some %s' % coq_z(y.value),
+                       'None' if y.section is None else 'Some %s' % _s(y.section),
+                       _s(y.typ if isinstance(y.typ, str) else ''), coq_z(y.size)))
+    rels = ['{| mr_typ := %s; mr_symid := %s; mr_section := %s; mr_offset := %s; mr_addend := %s |}'
+            % (_s(r.reloc_type), coq_z(r.symbol_id), _s(r.section), coq_z(r.offset), coq_z(r.addend))
+            for r in obj.relocations]
+    ims = ['{| mi_name := %s; mi_addr := %s; mi_secs := [%s] |}'
+           % (_s(i.name), coq_z(i.address), '; '.join(sec_term(s) for s in i.sections)) for i in obj.images]
+    return ('{| mo_arch := %s; mo_sections := [%s]; mo_symbols := [%s]; mo_relocs := [%s]; mo_images := [%s]; '
+            'mo_entry := %s |}'
+            % (_s(obj.arch.name), '; '.join(sec_term(s) for s in obj.sections), '; '.join(syms), '; '.join(rels),
+               '; '.join(ims), 'None' if obj.entry_symbol_id is None else 'Some %s' % coq_z(obj.entry_symbol_id)))
+
+
+def representable(obj):
+    """printable-ASCII names only (coq_str) and int-typed fields"""
+    try:
+        obj_term(obj)
+        return True
+    except (ValueError, TypeError, AttributeError):
+        return False
+
+
+def real_write(obj, typ):
+    """run the real writer: OkV(bytes) / Diag / Internal (+ the exception for reports)"""
+    from ppci.format.elf import write_elf
+    f = io.BytesIO()
+    try:
+        write_elf(obj, f, type=typ)
+    except ValueError as e:
+        if str(e).startswith('Undefined reference') or 'sections overlap' in str(e):
+            return Diag, e
+        return Internal, e
+    except Exception as e:   # noqa: BLE001
+        return Internal, e
+    return OkV(f.getvalue()), None
+
+
+def sparse_val(r):
+    if isinstance(r, OkV):
+        b = r.v
+        return OkV((len(b), [(i, x) for i, x in enumerate(b) if x]))
+    return r
+
+
+# ------------------------------------------------------------------ generators
+SEC_POOL = ['code', 'data', 'bss', 'rom', '.text', 'vectors', 'mem_a']
+SYM_POOL = ['main', 'foo', 'bar', 'baz', 'x', 'code', 'a_rather_long_symbol_name', 'L1', '', '_$end_']
+X86_RELOCS = ['rel32', 'abs64', 'abs32', 'absaddr64']
+
+
+def mk_obj(archname):
+    from ppci.api import get_arch
+    from ppci.binutils.objectfile import ObjectFile
+    return ObjectFile(get_arch(archname))
+
+
+def gen_object(rng, malformed=False, archname=None, want_exec=None):
+    """programmatic ObjectFile; returns (obj, type)"""
+    from ppci.binutils.objectfile import Section, Image, RelocationEntry
+    archname = archname or rng.choice(ARCHES if not malformed else ARCHES + ['x86_64'] * 3)
+    obj = mk_obj(archname)
+    is_exec = rng.random() < 0.45 if want_exec is None else want_exec
+    nsec = rng.choice([0, 1, 2, 2, 3, 4])
+    names = rng.sample(SEC_POOL, nsec)
+    addr = rng.choice([0, 0x1000, 0x40000, 0x8000, 0x10004, 52, 4096 * 3 + 8]) if is_exec else 0
+    for n in names:
+        s = Section(n)
+        s.alignment = rng.choice([1, 2, 4, 4, 8, 16, 64, 3, 5])
+        if malformed and rng.random() < 0.15:
+            s.alignment = rng.choice([0, -1, -4])
+        size = rng.choice([0, 1, 2, 3, 4, 7, 8, 13, 16, 29, 40])
+        s.add_data(bytes(rng.randrange(256) for _ in range(size)))
+        if is_exec:
+            addr += rng.choice([0, 0, 0, 1, 4, 12, 100])
+            if s.alignment > 0:
+                addr += (-addr) % s.alignment
+            s.address = addr
+            addr += size
+            if rng.random() < 0.25:
+                addr += rng.choice([0x1000, 0x2000 - 4, 0x20000])
+        elif rng.random() < 0.1:
+            s.address = rng.choice([4, 0x100, 0x1000])
+        obj.add_section(s)
+    if malformed and names and rng.random() < 0.15:
+        d = Section(rng.choice(names))
+        d.add_data(b'\x01\x02')
+        obj.add_section(d)           # duplicate section name
+    if is_exec and names:
+        k = rng.choice([0, 1, 1, 2, 2])
+        secs = list(obj.sections)
+        if k == 1:
+            groups = [secs[:rng.randrange(1, len(secs) + 1)]]
+        elif k == 2 and len(secs) >= 2:
+            c = rng.randrange(1, len(secs))
+            c2 = rng.randrange(c, len(secs)) + 1
+            groups = [secs[:c], secs[c:c2]]
+        else:
+            groups = [] if k == 0 else [secs]
+        for gi, g in enumerate(groups):
+            if not g:
+                continue
+            base = g[0].address - rng.choice([0, 0, 0, 4, 16])
+            if base < 0:
+                base = g[0].address
+            im = Image(rng.choice(['code', 'ram', 'flash', 'data']) if gi or rng.random() < 0.5 else 'code', base)
+            for s in g:
+                im.add_section(s)
+            if malformed and rng.random() < 0.2 and len(g) >= 2:
+                im.sections.reverse()        # overlap / decreasing addresses
+            if any(i.name == im.name for i in obj.images):
+                im.name += str(gi)
+            obj.add_image(im)
+    nsym = rng.choice([0, 1, 2, 3, 4, 6])
+    for i in range(nsym):
+        sid = i if rng.random() < 0.8 else 10 + i
+        name = rng.choice(SYM_POOL)
+        binding = rng.choice(['local', 'global', 'global'])
+        if binding == 'global' and obj.has_symbol(name):
+            binding = 'local'
+        typ = rng.choice(['func', 'object', 'object', None])
+        if names and rng.random() < 0.75:
+            sec = rng.choice(names)
+            value = rng.choice([0, 1, 4, 8, 13, 40])
+        else:
+            sec, value = None, None
+        if malformed and rng.random() < 0.2:
+            r = rng.random()
+            if r < 0.3:
+                sec = 'nosuch'
+                value = 3
+            elif r < 0.6:
+                sec, value = None, 77         # absolute symbol
+            elif r < 0.8:
+                value = rng.choice([-1, 1 << 32, 1 << 64])
+                sec = sec or (names[0] if names else 'nosuch')
+            else:
+                name = 'caf\xe9' if rng.random() < 0.5 else 'nul\x00in'
+        size = rng.choice([0, 0, 4, 8, 100])
+        if malformed and rng.random() < 0.05:
+            size = rng.choice([-1, 1 << 32, 1 << 64])
+        obj.add_symbol(sid, name, binding, value, sec, typ, size)
+    if not is_exec or rng.random() < 0.2:
+        nrel = rng.choice([0, 0, 1, 2, 3, 6]) if (archname == 'x86_64' or rng.random() < 0.25) else 0
+        ids = [y.id for y in obj.symbols]
+        for _ in range(nrel):
+            if not names or not ids:
+                break
+            rt = rng.choice(X86_RELOCS)
+            sid = rng.choice(ids)
+            secn = rng.choice(names)
+            if malformed and rng.random() < 0.2:
+                r = rng.random()
+                if r < 0.4:
+                    rt = 'rel8'
+                elif r < 0.7:
+                    sid = 99
+                else:
+                    secn = 'nosuch'
+            addend = rng.choice([0, 0, -4, 4, -(1 << 31), (1 << 31) - 1, 12345])
+            if malformed and rng.random() < 0.1:
+                addend = rng.choice([1 << 63, -(1 << 63) - 1, 1 << 31, -(1 << 31) - 1])
+            obj.relocations.append(RelocationEntry(rt, sid, secn, rng.choice([0, 1, 4, 11, 39]), addend))
+    if is_exec and obj.symbols and rng.random() < 0.7:
+        obj.entry_symbol_id = rng.choice([y.id for y in obj.symbols])
+        if malformed and rng.random() < 0.2:
+            obj.entry_symbol_id = 98
+    typ = 'executable' if is_exec else 'relocatable'
+    if malformed and rng.random() < 0.05:
+        typ = rng.choice(['shared', 'core'])
+    return obj, typ
+
+
+ASM_SRC = {
+    'x86_64': """
+section code
+global main
+global ext
+main:
+  mov rax, 1
+  call ext
+loc1:
+  jmp main
+  call helper
+section data
+dd 0x12345678
+lbl:
+dd 7
+""",
+    'arm': """
+section code
+global main
+main:
+  mov r0, 1
+  add r1, r0, r0
+  mov pc, lr
+section data
+dd 0x12345678
+""",
+    'riscv': """
+section code
+global main
+main:
+  addi x1, x0, 1
+  add x2, x1, x1
+section data
+dd 0x12345678
+""",
+}
+ASM_HELPER = {'x86_64': "section code\nglobal ext\nglobal helper\next:\n ret\nhelper:\n ret\n"}
+C3_SRC = """
+module main;
+var int g;
+function int add(int a, int b) { return a + b + g; }
+function void main() { g = add(1, 2); }
+"""
+C_SRC = """
+int g = 3;
+static int h(int a) { return a + a; }
+int f(int a) { return h(a) + g; }
+void main(void) { g = f(2); }
+"""
+LAYOUTS = [
+    "MEMORY code LOCATION=0x40000 SIZE=0x10000 { SECTION(code) }\n"
+    "MEMORY ram LOCATION=0x20000000 SIZE=0x10000 { SECTION(data) DEFINESYMBOL(endofram) }\n",
+    "MEMORY flash LOCATION=0x1000 SIZE=0x10000 { SECTION(code) ALIGN(8) SECTION(data) }\n",
+    "MEMORY code LOCATION=0x10010 SIZE=0x10000 { SECTION(code) }\n"
+    "MEMORY ram LOCATION=0x30004 SIZE=0x10000 { SECTION(data) }\n",
+]
+
+
+def real_objects(ctx, thorough):
+    """objects produced by the ppci front ends / assembler / linker: list of (label, obj, type)"""
+    import logging
+    from ppci import api
+    from ppci.binutils.layout import Layout
+    out, skipped = [], {}
+
+    def attempt(label, fn):
+        try:
+            return fn()
+        except Exception as e:   # noqa: BLE001
+            skipped[label] = type(e).__name__
+            return None
+    for arch in ARCHES:
+        objs = []
+        if arch in ASM_SRC:
+            o = attempt('asm-' + arch, lambda: api.asm(io.StringIO(ASM_SRC[arch]), arch))
+            if o is not None:
+                objs.append(('asm', o))
+        o = attempt('c3c-' + arch, lambda: api.c3c([io.StringIO(C3_SRC)], [], arch))
+        if o is not None:
+            objs.append(('c3c', o))
+        o = attempt('cc-' + arch, lambda: api.cc(io.StringIO(C_SRC), arch))
+        if o is not None:
+            objs.append(('cc', o))
+        for kind, o in objs:
+            out.append(('%s-%s-rel' % (kind, arch), o, 'relocatable'))
+            extra = []
+            if kind == 'asm' and arch in ASM_HELPER:
+                h = attempt('asmh-' + arch, lambda: api.asm(io.StringIO(ASM_HELPER[arch]), arch))
+                if h is None:
+                    continue
+                extra = [h]
+            for li, lay in enumerate(LAYOUTS if thorough else LAYOUTS[:2]):
+                e = attempt('link-%s-%s-%d' % (kind, arch, li),
+                            lambda: api.link([o] + extra, layout=Layout.load(io.StringIO(lay)), entry='main'))
+                if e is not None:
+                    out.append(('%s-%s-exe%d' % (kind, arch, li), e, 'executable'))
+                    if li == 0:
+                        out.append(('%s-%s-exe%d-as-rel' % (kind, arch, li), e, 'relocatable'))
+    logging.getLogger().setLevel(logging.WARNING)
+    ctx.cov['stages']['real_objects'] = {'built': len(out), 'skipped': skipped}
+    return out
+
+
+# ------------------------------------------------------------------ correspondence (model bytes == real bytes)
+def outcome_name(r):
+    return 'ok' if isinstance(r, OkV) else ('diag' if r is Diag else 'internal')
+
+
+def correspondence(ctx, thorough):
+    rng = ctx.rng
+    jobs = []          # (label, obj, typ)
+    for lab, o, t in real_objects(ctx, thorough):
+        jobs.append((lab, o, t))
+    n_prog = 260 if thorough else 90
+    for i in range(n_prog):
+        o, t = gen_object(rng, malformed=(i % 4 == 3))
+        jobs.append(('gen%d' % i, o, t))
+    cases, recs, seen = [], [], set()
+    dist = {}
+    nontriv = 0
+    for lab, o, t in jobs:
+        if not representable(o) or not isinstance(t, str):
+            dist['unrepresentable'] = dist.get('unrepresentable', 0) + 1
+            continue
+        term = 'sparse (write_elf (%s) %s)' % (obj_term(o), coq_str(t))
+        if term in seen:
+            continue
+        seen.add(term)
+        r, exc = real_write(o, t)
+        cases.append((term, sparse_val(r)))
+        recs.append((lab, t, r, exc, o))
+        k = '%s/%s/%s' % (o.arch.name, t, outcome_name(r) if exc is None else type(exc).__name__)
+        dist[k] = dist.get(k, 0) + 1
+        if isinstance(r, OkV) and any(s.size for s in o.sections) and o.symbols:
+            nontriv += 1
+    ctx.cov['stages']['correspondence_distribution'] = dist
+    ctx.cov['distinct_nontrivial'] += nontriv
+    for lab, t, r, exc, o in recs[:: max(1, len(recs) // 8)]:
+        ctx.note_sample({'object': lab, 'type': t, 'arch': o.arch.name,
+                         'impl': ('%d bytes' % len(r.v)) if isinstance(r, OkV) else type(exc).__name__})
+    bad = ctx.run_cases('elfwriter', ['Model.ElfWriter'], cases, shard=12)
+    if bad:
+        for i in bad[:5]:
+            lab, t, r, exc, o = recs[i]
+            ctx.log('model/implementation disagree on', lab, t, o.arch.name,
+                    'impl=', ('%d bytes' % len(r.v)) if isinstance(r, OkV) else repr(exc)[:100])
+        lab, t, r, exc, o = recs[bad[0]]
+        ctx.failed_stages.append(('correspondence', 'Model.ElfWriter.write_elf disagrees with ppci.format.elf.write_elf '
+                                  'on %d of %d objects, first: %s (%s, %s)' % (len(bad), len(cases), lab, o.arch.name, t)))
+    return bad
